@@ -16,6 +16,7 @@ import (
 	"log"
 	mrand "math/rand"
 	"os"
+	"regexp"
 	"runtime"
 	"sort"
 	"strings"
@@ -181,6 +182,42 @@ func (x *X) schedErr(e *simrt.SchedError, onErr func(*simrt.SchedError)) {
 	}
 }
 
+// checkPanics turns panics that ended a task into violations when they come out of Helios
+// code (crash of a request / admin / shutdown goroutine) and into harness errors otherwise.
+func (x *X) checkPanics() {
+	if x.S == nil {
+		return
+	}
+	for _, p := range x.S.TakePanics() {
+		site := heliosFrame(p.Stack)
+		if site == "" {
+			panic(fmt.Sprintf("panic in harness task %s: %s\n%s", p.Task, p.Value, p.Stack))
+		}
+		prop := x.Prop
+		if prop == "" {
+			prop = "C12"
+		}
+		v := p.Value
+		if len(v) > 80 {
+			v = v[:80]
+		}
+		x.Violate(prop, prop+"/panic{"+site+"}", "a goroutine running Helios code panicked: %s (innermost Helios frame %s, task %s)", v, site, p.Task)
+	}
+}
+
+var heliosFrameRe = regexp.MustCompile(`(?m)^\s+\S*?/((?:internal|cmd/helios)/[^\s:]+\.go):(\d+)`)
+
+// heliosFrame returns the innermost non-test Helios frame of a stack trace ("" if none).
+func heliosFrame(stack string) string {
+	for _, m := range heliosFrameRe.FindAllStringSubmatch(stack, -1) {
+		if strings.HasSuffix(m[1], "_test.go") {
+			continue
+		}
+		return m[1] + ":" + m[2]
+	}
+	return ""
+}
+
 // RunTasks runs the scheduler until every workload task has finished.
 func (x *X) RunTasks(onErr func(*simrt.SchedError)) bool {
 	if x.dead {
@@ -190,6 +227,7 @@ func (x *X) RunTasks(onErr func(*simrt.SchedError)) bool {
 		x.schedErr(e, onErr)
 		return false
 	}
+	x.checkPanics()
 	return true
 }
 
@@ -211,6 +249,7 @@ func (x *X) WaitFor(onErr func(*simrt.SchedError), ts ...*simrt.Task) bool {
 		x.schedErr(e, onErr)
 		return false
 	}
+	x.checkPanics()
 	return true
 }
 
@@ -224,6 +263,7 @@ func (x *X) Do(name string, fn func(), onErr func(*simrt.SchedError)) bool {
 		x.schedErr(e, onErr)
 		return false
 	}
+	x.checkPanics()
 	return true
 }
 
@@ -236,6 +276,7 @@ func (x *X) Advance(d time.Duration, onErr func(*simrt.SchedError)) bool {
 		x.schedErr(e, onErr)
 		return false
 	}
+	x.checkPanics()
 	return true
 }
 
